@@ -105,7 +105,7 @@ fn run_phase(rep: &Report, cli: &Cli, name: &str, bias_v: i32, n: usize, make: &
 pub fn run(cli: &Cli, rep: &Report) {
     let thorough = cli.thorough();
     rep.rule(
-        "E-enum: every element of MICRO(A3,L) x GRID x V, MICRO(A3,L') x SUBGRID x V, SHAPES x MINIGRID x V, \
+        "E-enum: every element of MICRO(A3,L) x GRID x V, MICRO(A3,L') x SUBGRID x V, SHAPES x MINIGRID x V, window-exactly-full shapes (-2..+2 bytes, 4 tails) x MINIGRID x 3 variants, \
          biased-start renormalisation cases and all LZMA2Writer operation sequences up to depth D; \
          a case is non-trivial when the input is non-empty and both encoder and decoder ran to completion \
          (distinct by hash of the case descriptor)",
@@ -171,6 +171,33 @@ pub fn run(cli: &Cli, rep: &Report) {
         }
         Some(Case { cont: svars[v].clone(), opts: mini[g], input: Input::Shape(shapes[s].clone()), ops: vec![], bias: 0 })
     });
+
+    // Phase 3b: the encoder window exactly full (-2..=+2 bytes) when the stream is finished, with matches that run to the
+    // last byte (the window size is observed from the allocator: largest byte buffer of a 3-byte encode)
+    {
+        let mut wcases: Vec<Case> = vec![];
+        let mut sizes = vec![];
+        for o in minigrid(&[4096, 65536]) {
+            for cont in [Container::LzmaHdrMarker, Container::LzmaRawSize, Container::Lzma2] {
+                if !cont.accepts(&o) {
+                    continue;
+                }
+                mc_core::alloc::begin();
+                let _ = mc_core::run::catch(|| crate::codec::encode(&cont, &o, &[1, 2, 3], &[]));
+                let b = mc_core::alloc::biggest_bytes_request().max(8192);
+                sizes.push(json!([cont.desc(), o.desc(), b]));
+                let d = o.dict as usize;
+                for delta in -2i64..=2 {
+                    let total = (b as i64 + delta) as usize;
+                    for sh in [vec![Seg::R(64), Seg::P(3, total - 64)], vec![Seg::Z(total)], vec![Seg::R(d), Seg::D(d, total - d)], vec![Seg::C(total - 300), Seg::D(7, 300)]] {
+                        wcases.push(Case { cont: cont.clone(), opts: o, input: Input::Shape(sh), ops: vec![], bias: 0 });
+                    }
+                }
+            }
+        }
+        rep.extra("window_full", json!({"cases": wcases.len(), "window_sizes": sizes}));
+        run_phase(rep, cli, "window_full", 0, wcases.len(), &|i| Some(wcases[i].clone()));
+    }
 
     // Phase 4: renormalisation through a biased start position
     let bias_inputs: Vec<Input> = {
